@@ -159,7 +159,7 @@ func Explore(cfg ExploreConfig, body func()) *Stats {
 			if res.Threads > st.MaxThreads {
 				st.MaxThreads = res.Threads
 			}
-			if res.Blocked > 0 {
+			if res.Blocked > 0 || res.Marked {
 				st.Blocked++
 			}
 			st.Outcomes[oh]++
